@@ -155,7 +155,8 @@ func runC06(e *core.Env) {
 		nodes = append(nodes, n)
 		mans = append(mans, n.Digest)
 	}
-	tags := []string{"t0", "t1", "t2"}
+	// (one tag name is a proper suffix of another: a lookup by suffix must not confuse them)
+	tags := []string{"t0", "t1", "xt0"}
 	useLayout := e.Choose("gen", 3, "endpoint") == 2
 	ep := &endpoint{}
 	foreign := false
@@ -210,6 +211,7 @@ func runC06(e *core.Env) {
 		reg := w.AddReg("reg.test")
 		reg.K.TagDelete = e.Choose("gen", 2, "tagdelete") == 0
 		reg.K.TagPage = []int{0, 1, 2}[e.Choose("gen", 3, "tagpage")]
+		reg.K.LinkSecondLine = e.Choose("gen", 2, "linkline") == 1
 		reg.K.Referrers = e.Choose("gen", 2, "refapi") == 0
 		ep.reg, ep.repo = reg, "proj/app"
 		for _, n := range nodes {
